@@ -254,7 +254,7 @@ def r05_4_order_independence(repo: Repo, rep: Report):
     rep.check("R05.4", ok, mm, cb, "every normal exit of _solve_end_to_end_callback passes ctx.solver_outputs.append(solver_output)", "a callback path returns without recording the solver output")
     apps = [c for c in method_calls(cb, "append") if "solver_outputs" in dotted(c.func)]
     for a in apps:
-        ok = len(a.args) == 1 and src(a.args[0]) == "solver_output" and not guard_set(mm, a)
+        ok = len(a.args) == 1 and src(a.args[0]) == "solver_output" and not guard_set(mm, a, silent=True)
         rep.check("R05.4", ok, mm, a, src(a), "the solver output must be appended unconditionally")
     so = [s for s in body_walk(cb) if isinstance(s, (ast.Assign, ast.AnnAssign)) and src(s.targets[0] if isinstance(s, ast.Assign) else s.target) == "solver_output"]
     ok = bool(so) and "_get_solver_output(future, path_ctx)" in src(so[0].value)
